@@ -2,6 +2,8 @@
 from ..core import Rule
 from ..prog import *
 from ..facts import AnalysisBroken
+from ..interp import normx, nkey, run_all
+from .. import evbheap as HB
 
 UNITS = ["buffer"]
 LEVEL = "other"
@@ -257,4 +259,104 @@ def run(ctx, config):
             if not ok:
                 r4.bad("K8:evbuffer_write_iovec:iov_len-unbounded", el.where(), g.name, "iovec length %s is not bounded by howmuch" % show(v))
     rules.append(r4)
+    rules.append(rule_read_heap(P))
     return rules
+
+
+def rule_read_heap(P):
+    """evbuffer_read evaluated on abstract buffer images: after a read of n bytes the chain list satisfies the evbuffer invariants (sizes, total_len, last,
+    *last_with_datap is the last chain holding data) for every layout x every n up to the offered space"""
+    r = Rule("C16-read-structure", "K6", "evbuffer_read leaves a well-formed buffer for every chain layout and every number of bytes the kernel returns", floor=20)
+    f = P.fn("evbuffer_read")
+    g = P.fn("evbuffer_read_setup_vecs_")
+    bufp = f.params[0][0]
+    layouts = [
+        ("one chain, partly filled", [dict(buffer_len=100, off=40)], 0),
+        ("one empty chain", [dict(buffer_len=100, off=0)], 0),
+        ("full chain + empty chain", [dict(buffer_len=100, off=100), dict(buffer_len=100, off=0)], 0),
+        ("partly filled chain + empty chain", [dict(buffer_len=100, off=40, misalign=10), dict(buffer_len=100, off=0)], 0),
+        ("full chain + two empty chains", [dict(buffer_len=100, off=100), dict(buffer_len=50, off=0), dict(buffer_len=100, off=0)], 0),
+        ("two data chains, second partly filled", [dict(buffer_len=100, off=100), dict(buffer_len=100, off=30), dict(buffer_len=100, off=0)], 1),
+    ]
+    nb = 0
+    for title, chains, lwd in layouts:
+        space = []
+        started = False
+        for k, c in enumerate(chains):
+            sp = c["buffer_len"] - c.get("misalign", 0) - c.get("off", 0)
+            if k >= lwd and (sp > 0 or started):
+                started = True
+                space.append(sp)
+        space = space[:4]
+        total_space = sum(space)
+        cuts = set([1, total_space])
+        acc = 0
+        for sp in space:
+            acc += sp
+            cuts.update([acc - 1, acc, acc + 1])
+        for n in sorted(x for x in cuts if 1 <= x <= total_space):
+            env = HB.build(chains, lwd)
+            before = sum(c.get("off", 0) for c in chains)
+            env.update({"#typed": 1, bufp: PPtr("buf"), f.params[1][0]: 5, f.params[2][0]: total_space, "event_debug_logging_mask_": 0})
+
+            def hook(el, e_):
+                nm = callee_name(el.e)
+                if nm == "get_n_bytes_readable_on_socket":
+                    return 4096
+                if nm == "evbuffer_expand_fast_":
+                    return 0
+                if nm in ("read", "readv"):
+                    return n
+                if nm in ("evbuffer_invoke_callbacks_", "evthread_is_debug_lock_held_"):
+                    return 0
+                if nm == "evbuffer_read_setup_vecs_":
+                    env2 = dict((k, v) for k, v in e_.items() if isinstance(k, tuple) and k and k[0] == "@")
+                    env2["#typed"] = 1
+                    a = el.e[2]
+                    try:
+                        env2[g.params[0][0]] = evalx(normx(a[0]), e_, P)
+                        env2[g.params[1][0]] = evalx(normx(a[1]), e_, P)
+                        env2[g.params[3][0]] = evalx(normx(a[3]), e_, P)
+                        env2[g.params[5][0]] = evalx(normx(a[5]), e_, P)
+                    except EvalError as ex:
+                        e_["#err"] = str(ex)
+                        return "impure"
+                    env2[g.params[2][0]] = 7
+                    env2[g.params[4][0]] = PRef(None, "#out:chainp")
+                    alts = []
+                    for o2 in run_all(g, (g.entry, 0), env2, lambda x: False, P, lambda x, y: 0 if callee_name(x.e) == "evthread_is_debug_lock_held_" else None, max_steps=400):
+                        if o2.kind == "exit" and o2.why == "noreturn":
+                            continue
+                        if o2.kind != "ret":
+                            e_["#err"] = "evbuffer_read_setup_vecs_: %s %s" % (o2.kind, o2.why)
+                            return "impure"
+                        out = strip(a[4])
+                        upd = {}
+                        if is_e(out, "addr") and is_e(strip(out[1]), "var"):
+                            upd[strip(out[1])[1]] = o2.env.get("#out:chainp")
+                        alts.append((evalx(normx(o2.at.e[1]), o2.env, P), upd))
+                    return alts or "impure"
+                return None
+            outs = [o for o in run_all(f, (f.entry, 0), env, lambda el: False, P, hook, max_steps=600) if not (o.kind == "exit" and o.why == "noreturn")]
+            for o in outs:
+                if o.kind != "ret":
+                    r.brk("evbuffer_read(%s, n=%d): %s %s %s" % (title, n, o.kind, o.why, o.env.get("#err", "")))
+                    return r
+                try:
+                    res = evalx(normx(o.at.e[1]), o.env, P)
+                except EvalError:
+                    res = None
+                bad = HB.invariant(o.env)
+                tl = o.env.get(HB.cell("buf", "evbuffer", "total_len"))
+                nadd = o.env.get(HB.cell("buf", "evbuffer", "n_add_for_cb"))
+                if res != n:
+                    bad.append("returns %s for a read of %d bytes" % (res, n))
+                if tl != before + n:
+                    bad.append("total_len %s, expected %d" % (tl, before + n))
+                if nadd != n:
+                    bad.append("n_add_for_cb %s, expected %d" % (nadd, n))
+                r.inst((title, n), {"layout": title, "bytes_read": n, "chains_after": [[i, fl["misalign"], fl["off"], fl["buffer_len"]] for i, fl in HB.chain_list(o.env)] if not bad or True else None, "violations": bad})
+                if bad and nb < 5:
+                    nb += 1
+                    r.bad("K6:evbuffer_read:structure", "%s:%d" % (f.file, f.line), f.name, "%s, kernel returns %d bytes: %s" % (title, n, "; ".join(bad)))
+    return r
